@@ -364,11 +364,17 @@ class CircuitFinderSat:
                     )
                 ]
             )
-        elif first_predecessor is not None:
-            if not (gate > first_predecessor):
+        else:
+            predecessor = (
+                first_predecessor
+                if first_predecessor is not None
+                else second_predecessor
+            )
+            assert predecessor is not None
+            if not (gate > predecessor):
                 raise FixGateOrderError()
             for a, b in itertools.combinations(range(gate), 2):
-                if a != first_predecessor and b != first_predecessor:
+                if a != predecessor and b != predecessor:
                     self._cnf.append([-self._predecessors_variable(gate, a, b)])
 
         if gate_type:
